@@ -4,7 +4,7 @@ use std::collections::{BTreeMap, BTreeSet, VecDeque};
 
 use simrt::Verdict;
 
-use crate::elem::E;
+use crate::elem::{chain, mix, E, TAG_WIN};
 use crate::job::ProbeMeta;
 use crate::oracle::{viol, Violation};
 use crate::plan::*;
@@ -801,6 +801,41 @@ pub fn c13(sc: &Scenario, rr: &RunResult) -> Vec<Violation> {
 // C14 processing-time and session windows
 // ------------------------------------------------------------------------------------------
 
+/// split a probe history into iterations (one per FlushAndRestart marker; a trailing part without
+/// marker is kept if it holds data)
+fn split_iterations(h: &[PRec]) -> Vec<Vec<&PRec>> {
+    let mut its: Vec<Vec<&PRec>> = vec![vec![]];
+    for r in h {
+        if r.kind == K_FAR {
+            its.push(vec![]);
+        } else if matches!(r.kind, K_ITEM | K_TS) {
+            its.last_mut().unwrap().push(r);
+        }
+    }
+    if its.last().map(|l| l.is_empty()).unwrap_or(false) {
+        its.pop();
+    }
+    its
+}
+
+/// the members of a `Members`/`Chain` result, reconstructed from its count and chained hash: a
+/// processing-time or session window holds a contiguous run of its key's arrivals
+fn members_by_chain(arr: &[u64], count: usize, id: u64) -> Option<Vec<u64>> {
+    if count == 0 || count > arr.len() {
+        return None;
+    }
+    for a in 0..=arr.len() - count {
+        let mut h = 0i64;
+        for x in &arr[a..a + count] {
+            h = chain(h, *x);
+        }
+        if mix(TAG_WIN, h as u64) == id {
+            return Some(arr[a..a + count].to_vec());
+        }
+    }
+    None
+}
+
 pub fn c14(sc: &Scenario, rr: &RunResult) -> Vec<Violation> {
     let mut out = vec![];
     if !completed(rr) {
@@ -808,7 +843,7 @@ pub fn c14(sc: &Scenario, rr: &RunResult) -> Vec<Violation> {
     }
     let mut wins = vec![];
     window_steps(&sc.steps, &[], &mut wins);
-    let Some(results) = sink_vec(rr, 0) else { return out };
+    let results = sink_vec(rr, 0).unwrap_or_default();
     let by_id: BTreeMap<u64, &E> = results.iter().map(|e| (e.id, e)).collect();
     for (path, kind, agg, _all) in wins {
         if agg != WinAgg::Members {
@@ -817,6 +852,9 @@ pub fn c14(sc: &Scenario, rr: &RunResult) -> Vec<Violation> {
         let (Some(pm), Some(qm)) = (meta_at(rr, &path, "start", 0), meta_at(rr, &path, "out", 0)) else {
             continue;
         };
+        // inside a loop body the results feed the loop state, not the sink: their members are
+        // reconstructed from the chained hash, per iteration
+        let in_loop = path.len() > 1;
         let (p, q) = (pm.id, qm.id);
         let (partition, max_times, name) = match kind {
             WinKind::Proc { size_us, slide_us } if size_us == slide_us => (true, 1usize, format!("tumbling processing-time window ({} us)", size_us)),
@@ -826,84 +864,106 @@ pub fn c14(sc: &Scenario, rr: &RunResult) -> Vec<Violation> {
         };
         let mut q_total = 0usize;
         for c in coords_of(rr, p) {
-            // per key arrival order
-            let mut arrival: BTreeMap<u16, Vec<u64>> = BTreeMap::new();
-            for r in &rr.rec.probes[&(p, c)] {
-                if matches!(r.kind, K_ITEM | K_TS) {
+            let empty = vec![];
+            let p_its = split_iterations(&rr.rec.probes[&(p, c)]);
+            let q_its = split_iterations(rr.rec.probes.get(&(q, c)).unwrap_or(&empty));
+            if q_its.len() > p_its.len() {
+                out.push(viol("C14", "foreign-key", format!("{} at {:?}: results in {} iterations, input in {}", name, c, q_its.len(), p_its.len())));
+                return out;
+            }
+            for (it, pit) in p_its.iter().enumerate() {
+                // per key arrival order
+                let mut arrival: BTreeMap<u16, Vec<u64>> = BTreeMap::new();
+                for r in pit {
                     arrival.entry(r.key).or_default().push(r.id);
                 }
-            }
-            let mut emitted: BTreeMap<u16, Vec<Vec<u64>>> = BTreeMap::new();
-            if let Some(hq) = rr.rec.probes.get(&(q, c)) {
-                for r in hq {
-                    if matches!(r.kind, K_ITEM | K_TS) {
-                        q_total += 1;
+                let mut emitted: BTreeMap<u16, Vec<Vec<u64>>> = BTreeMap::new();
+                for r in q_its.get(it).map(|v| v.as_slice()).unwrap_or(&[]) {
+                    q_total += 1;
+                    let mem = if in_loop {
+                        let arr = arrival.get(&r.key).cloned().unwrap_or_default();
+                        if r.v <= 0 {
+                            out.push(viol("C14", "empty-window", format!("{}: empty result for key {} in iteration {}", name, r.key, it)));
+                            return out;
+                        }
+                        match members_by_chain(&arr, r.v as usize, r.id) {
+                            Some(m) => m,
+                            None => {
+                                out.push(viol(
+                                    "C14",
+                                    "mixed-window",
+                                    format!("{} key {} at {:?}, iteration {}: a result with {} members is not a run of this key's {} arrivals of this iteration (elements of another key or iteration, or out of order)", name, r.key, c, it, r.v, arr.len()),
+                                ));
+                                return out;
+                            }
+                        }
+                    } else {
                         let Some(res) = by_id.get(&r.id) else {
                             out.push(viol("C14", "result-lost", format!("{}: a result seen after the operator never reached the sink", name)));
                             return out;
                         };
-                        let mem = members_of(res);
-                        if mem.is_empty() {
-                            out.push(viol("C14", "empty-window", format!("{}: empty result for key {}", name, r.key)));
-                            return out;
-                        }
-                        emitted.entry(r.key).or_default().push(mem);
-                    }
-                }
-            }
-            for (k, arr) in &arrival {
-                let res = emitted.get(k).cloned().unwrap_or_default();
-                if partition {
-                    let concat: Vec<u64> = res.iter().flatten().cloned().collect();
-                    if &concat != arr {
-                        let class = if concat.len() < arr.len() {
-                            "element-lost"
-                        } else if concat.len() > arr.len() {
-                            "element-duplicated"
-                        } else {
-                            "order-changed"
-                        };
-                        out.push(viol(
-                            "C14",
-                            class,
-                            format!("{} key {} at {:?}: {} elements arrived, the results hold {} in total and their concatenation differs from the arrival order", name, k, c, arr.len(), concat.len()),
-                        ));
+                        members_of(res)
+                    };
+                    if mem.is_empty() {
+                        out.push(viol("C14", "empty-window", format!("{}: empty result for key {}", name, r.key)));
                         return out;
                     }
-                } else {
-                    let mut times: BTreeMap<u64, usize> = BTreeMap::new();
-                    for g in &res {
-                        // members must be a subsequence of the arrival order
-                        let mut it = arr.iter();
-                        for m in g {
-                            if !it.any(|x| x == m) {
-                                out.push(viol("C14", "order-changed", format!("{} key {}: a result does not keep arrival order", name, k)));
-                                return out;
-                            }
-                            *times.entry(*m).or_default() += 1;
-                        }
-                    }
-                    for id in arr {
-                        let n = times.get(id).copied().unwrap_or(0);
-                        if n < 1 || n > max_times {
+                    emitted.entry(r.key).or_default().push(mem);
+                }
+                for (k, arr) in &arrival {
+                    let res = emitted.get(k).cloned().unwrap_or_default();
+                    if partition {
+                        let concat: Vec<u64> = res.iter().flatten().cloned().collect();
+                        if &concat != arr {
+                            let class = if concat.len() < arr.len() {
+                                "element-lost"
+                            } else if concat.len() > arr.len() {
+                                "element-duplicated"
+                            } else {
+                                "order-changed"
+                            };
                             out.push(viol(
                                 "C14",
-                                if n == 0 { "element-lost" } else { "element-duplicated" },
-                                format!("{} key {}: element {:x} appears in {} results (allowed 1..={})", name, k, id, n, max_times),
+                                class,
+                                format!("{} key {} at {:?}, iteration {}: {} elements arrived, the results hold {} in total and their concatenation differs from the arrival order", name, k, c, it, arr.len(), concat.len()),
                             ));
                             return out;
                         }
+                    } else {
+                        let mut times: BTreeMap<u64, usize> = BTreeMap::new();
+                        for g in &res {
+                            // members must be a subsequence of the arrival order
+                            let mut iter = arr.iter();
+                            for m in g {
+                                if !iter.any(|x| x == m) {
+                                    out.push(viol("C14", "order-changed", format!("{} key {}: a result does not keep arrival order", name, k)));
+                                    return out;
+                                }
+                                *times.entry(*m).or_default() += 1;
+                            }
+                        }
+                        for id in arr {
+                            let n = times.get(id).copied().unwrap_or(0);
+                            if n < 1 || n > max_times {
+                                out.push(viol(
+                                    "C14",
+                                    if n == 0 { "element-lost" } else { "element-duplicated" },
+                                    format!("{} key {}, iteration {}: element {:x} appears in {} results (allowed 1..={})", name, k, it, id, n, max_times),
+                                ));
+                                return out;
+                            }
+                        }
+                    }
+                }
+                for k in emitted.keys() {
+                    if !arrival.contains_key(k) {
+                        out.push(viol("C14", "foreign-key", format!("{}: result for key {} which never arrived at {:?} in iteration {}", name, k, c, it)));
+                        return out;
                     }
                 }
             }
-            for k in emitted.keys() {
-                if !arrival.contains_key(k) {
-                    out.push(viol("C14", "foreign-key", format!("{}: result for key {} which never arrived at {:?}", name, k, c)));
-                    return out;
-                }
-            }
         }
-        if q_total != results.len() {
+        if !in_loop && q_total != results.len() {
             out.push(viol("C14", "result-count", format!("{}: {} results left the operator, the sink holds {}", name, q_total, results.len())));
         }
     }
